@@ -120,8 +120,17 @@ pub fn run(tier: Tier) -> Report {
     let mut outcomes: BTreeSet<u64> = BTreeSet::new();
     let mut samples = Samples::new(10);
     // words that are pieces or concatenations of candidates (never candidates themselves)
-    crate::traces::EXTRA_WORDS.with(|w| *w.borrow_mut() = vec!["gamma".into(), "ray".into(), "foo bar".into(), "ace".into(), "alpha\tfirst letter".into()]);
     for g in &grammars {
+        // (only where a probe with such candidates is used: every extra word multiplies the traces)
+        let text_g = crate::ast::print_grammar(g);
+        let extra: Vec<String> = if text_g.contains("__p 8 ") {
+            vec!["gamma".into(), "ray".into(), "foo bar".into(), "alpha\tfirst letter".into()]
+        } else if text_g.contains("__p 4 ") {
+            vec!["ace".into(), "tb sp".into()]
+        } else {
+            vec![]
+        };
+        crate::traces::EXTRA_WORDS.with(|w| *w.borrow_mut() = extra);
         match run_grammar_opts(g, &defs, &pr, depth, tier.pick(300, 1500), false, lean, true, &scratch) {
             Ok(run) => {
                 replayed += 1;
